@@ -121,8 +121,13 @@ class C06(CacheProp):
                         fifo.append((n, "unk", h, v, exp))   # outcome unknown, but it is pending behind what is queued
                     elif h in ref and (ref[h][1] == 0 or now < ref[h][1]) and not any(f[2] == h for f in fifo):
                         ref[h] = (v, exp)                # overwrite of a resident key: visible at once
+                    elif h in ref and not any(f[2] == h for f in fifo):
+                        # its TTL has elapsed (swept or not): to Get it is not resident, and nothing is pending - whether the
+                        # code overwrites the dead entry in place or inserts anew, the value must be there after Wait
+                        ref.pop(h)
+                        fifo.append((n, "new", h, v, exp))
                     elif h in ref or any(f[2] == h for f in fifo):
-                        dirty.add(h); ref.pop(h, None)   # pending or just expired: the property does not apply
+                        dirty.add(h); ref.pop(h, None)   # something about the key is pending: the property does not apply
                         fifo.append((n, "unk", h, v, exp))
                     else:
                         fifo.append((n, "new", h, v, exp))
